@@ -13,7 +13,7 @@ RULE = ("Metamorphic: Hypothesis generates a multiset Wf of 2-5 well-formed entr
         "$topdir trash dirs, a set M of 1-4 malformed neighbours {non-.trashinfo file in info/, "
         "empty, truncated, binary, non-UTF-8 info, no Path, no DeletionDate, invalid date, info "
         "without payload, payload without info, directory named *.trashinfo, dangling symlink named "
-        "*.trashinfo}, a readdir permutation seed (os.listdir results are permuted by the "
+        "*.trashinfo; optionally claiming the same original location as a well-formed entry}, a readdir permutation seed (os.listdir results are permuted by the "
         "interposer) and a command {list; restore x sort x chosen entry; rm pattern; empty; empty "
         "DAYS}. The command runs on world(Wf) and on world(Wf u M); stdout records and all "
         "effects RESTRICTED TO Wf must be identical (same lines listed, same entry restored to the "
@@ -45,7 +45,10 @@ def strategy_(draw, tier):
     for i in range(draw(st.integers(1, 4))):
         tdir, base = draw(st.sampled_from(tds))
         mal.append(dict(tdir=tdir, base=base, kind=draw(st.sampled_from(MKINDS)),
-                        name="m%d%s" % (i, draw(st.sampled_from(["", " x", "é"])))))
+                        name="m%d%s" % (i, draw(st.sampled_from(["", " x", "é"]))),
+                        # the malformed entry may claim the SAME original location as a well-formed
+                        # one (the same file trashed twice, one info damaged): ties on the path
+                        same_path_as=draw(st.sampled_from([None, None, 0, 1]))))
     return {"layout": tw.layout, "uid": tw.uid, "wf": wf, "mal": mal,
             "cmd": draw(st.sampled_from(CMDS)), "pick": draw(st.integers(0, 4)),
             "perm": draw(st.integers(0, 1000)),
@@ -69,6 +72,13 @@ def build(case, with_m):
             tw.ensure_tdir(td, base)
             ip = td + "/info/" + nm + ".trashinfo"
             pv = b"/home/u/w/" + fsenc(nm) if base is None else b"w/" + fsenc(nm)
+            sp = m.get("same_path_as")
+            if sp is not None:
+                w = case["wf"][sp % len(case["wf"])]
+                if base is None:
+                    pv = fsenc(w["orig"])
+                elif w["orig"].startswith(base.rstrip("/") + "/"):
+                    pv = fsenc(w["orig"][len(base.rstrip("/")) + 1:])
             good = oracle.make_info(pv, "2000-01-01T00:01:40")
             pay = {"p": td + "/files/" + nm, "t": "f", "c": "malformed's payload"}
             if k == "non_trashinfo":
@@ -161,7 +171,7 @@ def run_case(case):
         diff = {k: (a["states"][k], b["states"][k]) for k in a["states"] if a["states"][k] != b["states"][k]}
         out.fail("effect_differs", "%s: fate of well-formed entries differs with malformed neighbours "
                  "%s: %r (exit %d, stderr %r)" % (cmd, kinds, diff, b["exit"], b["err"]), **tags)
-    out.key = [cmd, kinds, len(case["wf"])]
+    out.key = [cmd, kinds, len(case["wf"]), any(m.get("same_path_as") is not None for m in case["mal"])]
     out.sample = {"cmd": cmd, "malformed": kinds, "wf": [e["orig"] for e in case["wf"]],
                   "fates": b["states"], "exit": b["exit"]}
     return out
